@@ -503,6 +503,7 @@ type ContractSet struct {
 	Funcs     map[string]*FuncContract // key: pkgpath + "." + Key
 	Specs     map[string]*SpecFunc     // key: name (global) and pkg.name
 	PureIface map[string]bool          // "pkgpath.Iface.Method"
+	PureCalls []string                 // name suffixes of functions assumed not to write caller-visible memory
 	PureAny   map[string]string        // method name -> result type (pure on every receiver)
 	Lemmas    []*Lemma
 	Axioms    []*Axiom
@@ -551,7 +552,7 @@ var clauseKeywords = map[string]bool{
 	"func": true, "spec": true, "pureany": true, "purefunc": true, "lemma": true, "axiom": true, "pureiface": true,
 	"props": true, "requires": true, "ensures": true, "let": true, "loop": true, "assigns": true,
 	"pure": true, "functional": true, "inline": true, "trusted": true, "callback": true, "ghost": true, "on": true,
-	"maypanic": true, "attr": true, "assume": true, "package": true, "nobody": true, "cover": true, "token": true,
+	"maypanic": true, "attr": true, "assume": true, "package": true, "nobody": true, "cover": true, "token": true, "purecall": true,
 }
 
 func firstWord(s string) (string, string) {
@@ -730,6 +731,18 @@ func (cs *ContractSet) LoadFile(path, pkgPath string, isSpec bool) error {
 			// name are assumed not to write caller-visible memory (an assumption, listed in evidence)
 			for _, f := range strings.Fields(rest) {
 				cs.PureIface["purefunc:"+f] = true
+			}
+			cur = nil
+		case "purecall":
+			// purecall Suffix [Suffix ...]: every function whose name ends with the suffix (e.g.
+			// "(*Client).Start") is assumed not to write memory visible to its callers; calls are not
+			// inlined, results are unconstrained. Only allowed in /verif/specs (an assumption,
+			// listed in evidence).
+			if !isSpec {
+				return fail(fmt.Errorf("purecall only allowed in /verif/specs"))
+			}
+			for _, f := range strings.Fields(rest) {
+				cs.PureCalls = append(cs.PureCalls, f)
 			}
 			cur = nil
 		case "lemma", "axiom":
